@@ -17,12 +17,14 @@ Lxna == <<"x", "n", "-", "-", "a">>
 Lxnstar == <<"x", "n", "-", "-", "*">>
 Lempty == <<>>
 LA == <<"A">>
-LabelSeq == <<La, Lb, Lab, Lstar, Lastar, Lstara, Lastarb, L2star, Lxna, Lxnstar, Lempty, LA>>
-MCLabels12 == {LabelSeq[i] : i \in 1..12}
+LXNstar == <<"X", "N", "-", "-", "*">>      \* the ACE prefix capitalised (RFC 5890: case independent)
+LXNa == <<"X", "N", "-", "-", "a">>
+LabelSeq == <<La, Lb, Lab, Lstar, Lastar, Lstara, Lastarb, L2star, Lxna, Lxnstar, Lempty, LA, LXNstar, LXNa>>
+MCLabels14 == {LabelSeq[i] : i \in 1..14}
 MCLabels8 == {La, Lb, Lstar, Lastar, L2star, Lxna, Lempty, LA}
 MCLabels6 == {La, Lstar, Lstara, Lxna, Lempty, LA}
 MCLabels5 == {La, Lstar, Lastar, Lxna, Lempty}
-LIdx(l) == CHOOSE i \in 1..12 : LabelSeq[i] = l
+LIdx(l) == CHOOSE i \in 1..14 : LabelSeq[i] = l
 RECURSIVE NameHash(_)
 NameHash(n) == IF n = <<>> THEN 0 ELSE LIdx(n[1]) + 5 * NameHash(Tail(n))
 
@@ -48,30 +50,30 @@ HI(a, sp, n) == [k |-> "ip", n |-> n, a |-> a, sp |-> sp]
 
 MCEntrySeq == <<
     DNS(<<La, Lb>>), DNS(<<Lstar, Lb>>), DNS(<<Lastar, Lb>>), DNS(<<L2star, Lb>>), DNS(<<La, Lstar>>),
-    DNS(<<Lxnstar, Lb>>), DNS(<<Lstar>>), DNS(T1), DNS(T1wild), IP(1, "plain"), IP(2, "alt"), IP(2, "nl"),
-    IP(3, "plain"), OtherEntry >>
+    DNS(<<Lxnstar, Lb>>), DNS(<<LXNstar, Lb>>), DNS(<<Lstar>>), DNS(T1), DNS(T1wild), IP(1, "plain"), IP(2, "alt"),
+    IP(2, "nl"), IP(3, "plain"), OtherEntry >>
 MCEntries == {MCEntrySeq[i] : i \in 1..Len(MCEntrySeq)}
-\* quick tier: the entries that carry a clause each (exact, whole-label wildcard, the D13 poison, a
-\* one-label wildcard that globs "[v6]", IP text in a DNS entry, two IP values, a non-identity)
-MCEntriesQ == {DNS(<<La, Lb>>), DNS(<<Lstar, Lb>>), DNS(<<L2star, Lb>>), DNS(<<Lstar>>), DNS(T1wild),
-               IP(1, "plain"), IP(2, "alt"), OtherEntry}
+\* quick tier: the entries that carry a clause each (exact, whole-label wildcard, the D13 poison, the
+\* D14 capitalised ACE prefix, a one-label wildcard that globs "[v6]", IP text in a DNS entry, two IP values, a non-identity)
+MCEntriesQ == {DNS(<<La, Lb>>), DNS(<<Lstar, Lb>>), DNS(<<L2star, Lb>>), DNS(<<LXNstar, Lb>>), DNS(<<Lstar>>),
+               DNS(T1wild), IP(1, "plain"), IP(2, "alt"), OtherEntry}
 MCHostSeq == <<
     HD(<<La, Lb>>), HD(<<LA, <<"B">> >>), HD(<<Lb, Lb>>), HD(<<Lab, Lb>>), HD(<<La, La>>), HD(<<Lxna, Lb>>),
     HD(<<Lempty, Lb>>), HD(<<La, Lb, Lempty>>), HD(<<La>>), HD(<<Lb, La, Lb>>), HD(<<La, Lstar>>),
-    HD(<<L2star, Lb>>), HD(<<Lastar, Lb>>), HD(<<Lstar, Lb>>), HD(<<Lxnstar, Lb>>),
+    HD(<<L2star, Lb>>), HD(<<Lastar, Lb>>), HD(<<Lstar, Lb>>), HD(<<Lxnstar, Lb>>), HD(<<LXNa, Lb>>),
     HI(1, "plain", T1), HI(1, "brack", Brack(T1)), HI(4, "plain", T4), HI(2, "plain", T2), HI(2, "alt", T2alt),
     HI(2, "zoned", Zoned(T2)), HI(2, "brack", Brack(T2)), HI(2, "brackzoned", Brack(Zoned(T2))),
     HI(3, "plain", T3), HI(3, "brack", Brack(T3)) >>
 MCHosts == {MCHostSeq[i] : i \in 1..Len(MCHostSeq)}
 MCHostsQ == {HD(<<La, Lb>>), HD(<<LA, <<"B">> >>), HD(<<Lb, Lb>>), HD(<<Lxna, Lb>>), HD(<<Lempty, Lb>>), HD(<<La>>),
-             HD(<<Lb, La, Lb>>), HD(<<L2star, Lb>>),
+             HD(<<Lb, La, Lb>>), HD(<<L2star, Lb>>), HD(<<LXNa, Lb>>),
              HI(1, "plain", T1), HI(1, "brack", Brack(T1)), HI(4, "plain", T4), HI(2, "plain", T2),
              HI(2, "alt", T2alt), HI(2, "zoned", Zoned(T2)), HI(2, "brack", Brack(T2)),
              HI(2, "brackzoned", Brack(Zoned(T2))), HI(3, "plain", T3)}
-MCCNSeq == << <<La, Lb>>, <<Lstar, Lb>>, <<L2star, Lb>>, <<Lstar>> >>
+MCCNSeq == << <<La, Lb>>, <<Lstar, Lb>>, <<L2star, Lb>>, <<Lstar>>, <<LXNstar, Lb>> >>
 MCCNs == {MCCNSeq[i] : i \in 1..Len(MCCNSeq)}
 NoDefects == {}
-AbortDefect == {"ABORT"}
+AllDefects == {"ABORT", "ACECASE"}          \* the code as it is at the pinned commit
 
 \* ---------------------------------------------------------------- emission (spec -> code)
 \* Invariants that are always TRUE and print.  Sharded: every shard explores the (tiny) state
@@ -85,7 +87,9 @@ EmitPairs ==
         PrintT(<<"HM", ToJson([dn |-> NameStr(st),
                                must |-> {NameStr(h) : h \in must},
                                either |-> {NameStr(h) : h \in eith},
-                               macc |-> {NameStr(h) : h \in {g \in eith : DnsnameMatch(st, g) = "T"}},
+                               macc |-> {NameStr(h) : h \in {g \in Hosts : DnsnameMatch(st, g) = "T"}},
+                               ace |-> {NameStr(h) : h \in {g \in Hosts : DnsMustReject(st, g) /\ AceCase(st, g)}},
+                               rc |-> {DnsRejectClause(st, h) : h \in Hosts},
                                nhosts |-> Cardinality(Hosts)])>>)
 
 EIdx(e) == CHOOSE i \in 1..Len(MCEntrySeq) : MCEntrySeq[i] = e
@@ -104,9 +108,11 @@ EmitLists ==
               mt(q) == MatcherList([san |-> st, cn |-> q.cn], q.h, q.on, q.api)
               out == {q \in cases : cl(q) # "mustnot" \/ mt(q)} IN
           PrintT(<<"LS", ToJson([san |-> [i \in 1..Len(st) |-> EIdx(st[i])], ncases |-> Cardinality(cases),
+                                 rc |-> {ListRejectClause([san |-> st, cn |-> q.cn], q.h, q.on, q.api) : q \in cases},
                                  out |-> {[cn |-> CNIdx(q.cn), h |-> HIdx(q.h), on |-> q.on, api |-> q.api,
                                            cls |-> cl(q), m |-> mt(q),
-                                           p |-> Poisoned([san |-> st, cn |-> q.cn], q.h, q.api)] : q \in out}])>>)
+                                           p |-> Poisoned([san |-> st, cn |-> q.cn], q.h, q.api),
+                                           a |-> ListAceCase([san |-> st, cn |-> q.cn], q.h, q.on, q.api)] : q \in out}])>>)
 
 EmitFp ==
     PrintT(<<"FP", ToJson([src |-> st.src, cells |-> LabelStr(st.cells), d |-> st.d,
